@@ -247,6 +247,10 @@ func TestWorker(t *testing.T) {
 		if rep.Races > 0 {
 			rep.RaceFrom, rep.RaceTo = r0, raceLogSize()
 		}
+		if rep.Races > 0 {
+			// generic marker (the driver derives the function-pair signatures from the race log)
+			rep.Violations = append(rep.Violations, Violation{Class: "race", Sig: "race", Op: "?", Detail: fmt.Sprintf("%d data race report(s) by the Go race detector", rep.Races)})
+		}
 		if oc.Sys != nil {
 			// linearizability of the recorded system-font-cache history (outside the bubble)
 			rep.LinOps = len(oc.Sys.Ops)
@@ -328,8 +332,6 @@ func writeReplay(t *testing.T, dir string, spec *RunSpec, rep *RunReport, oc *Ou
 	}
 	if len(rep.Violations) > 0 {
 		rf.Violation = rep.Violations[0]
-	} else {
-		rf.Violation = Violation{Class: "race", Sig: "race", Detail: fmt.Sprintf("%d data race report(s) by the Go race detector", rep.Races)}
 	}
 	b, _ := json.MarshalIndent(rf, "", " ")
 	p := filepath.Join(dir, fmt.Sprintf("C20-%d-%d.json", spec.VerifSeed, spec.Run))
